@@ -26,6 +26,7 @@ import (
 	"github.com/google/gce-tcb-verifier/extract/extractsev"
 	"github.com/google/gce-tcb-verifier/sev"
 	"github.com/google/gce-tcb-verifier/timeproto"
+	"github.com/google/gce-tcb-verifier/verifhook"
 	"github.com/google/go-sev-guest/abi"
 	"google.golang.org/protobuf/proto"
 
@@ -119,6 +120,7 @@ func SNPFamilyValidateFunc(familyID string, opts *Options) func(*spb.Attestation
 
 		}
 		opts.SNP.Measurement = measurement
+		verifhook.Gate("verify.snp.measurement-captured")
 		// Prefer the endorsement provided by the caller.
 		if opts.Endorsement != nil {
 			return EndorsementProto(opts.Endorsement, opts)
